@@ -8,13 +8,24 @@ import time
 import common
 from common import Result, log
 
-STALL_S = 12          # a single CALL may take this long at most (budget of the property: "a small time"); the harness writes a heartbeat after calls
+STALL_S = 12          # CPU seconds a single CALL may take at most (budget of the property: "a small time"); the harness writes a heartbeat after calls
 MEM_BYTES = 6 * 1024 ** 3
+WALL_BACKSTOP_S = 180  # ... and this much wall-clock time without progress whatever the CPU use (blocked process)
 MAX_HANGS = 6         # stop a family after this many hanging / dying maps
 
 
 def limits():
     resource.setrlimit(resource.RLIMIT_AS, (MEM_BYTES, MEM_BYTES))
+
+
+def cpu_seconds(pid):
+    """CPU time (user + system) the process has used; the hang budget is counted in CPU seconds of the worker, so that a loaded
+    machine does not turn a slow call into a 'hang' (a spinning loop burns CPU; a blocked process is caught by the wall-clock backstop)"""
+    try:
+        f = open("/proc/%d/stat" % pid).read().rsplit(")", 1)[1].split()
+        return (int(f[11]) + int(f[12])) / os.sysconf("SC_CLK_TCK")
+    except (OSError, IndexError, ValueError):
+        return 0.0
 
 
 def run_slices(binp, scen, n, c09, nproc, label, random_family=False):
@@ -39,6 +50,7 @@ def run_slices(binp, scen, n, c09, nproc, label, random_family=False):
             args = [binp, "corner-replay", scen, s["out"], s["prog"], "--from", str(s["from"]), "--to", str(s["to"]), "--mod", str(nproc), "--rem", str(s["k"])] + (["--c09"] if c09 else [])
         s["proc"] = subprocess.Popen(args, stdout=subprocess.PIPE, stderr=subprocess.STDOUT, text=True, preexec_fn=limits)
         s["last"] = time.time()
+        s["cpu_last"] = 0.0
         s["cur"] = s["from"]
         s["size"] = 0
 
@@ -76,6 +88,7 @@ def run_slices(binp, scen, n, c09, nproc, label, random_family=False):
                 s["cur"] = cur
                 s["size"] = size
                 s["last"] = time.time()
+                s["cpu_last"] = cpu_seconds(s["proc"].pid)
             if rc is not None:
                 if rc == 0 and os.path.exists(s["out"]):
                     o = json.load(open(s["out"]))
@@ -94,10 +107,10 @@ def run_slices(binp, scen, n, c09, nproc, label, random_family=False):
                 for f in (s["prog"], s["out"]):
                     if f and os.path.exists(f) and s not in active:
                         os.remove(f)
-            elif time.time() - s["last"] > STALL_S:
+            elif cpu_seconds(s["proc"].pid) - s["cpu_last"] > STALL_S or time.time() - s["last"] > WALL_BACKSTOP_S:
                 s["proc"].kill()
                 s["proc"].wait()
-                hangs.append({"index": s["cur"], "what": "no progress for %ds (hang)" % STALL_S})
+                hangs.append({"index": s["cur"], "what": "no progress for %d CPU seconds (hang)" % STALL_S})
                 s["from"] = s["cur"] + 1
                 if s["from"] < s["to"]:
                     start(s)
@@ -206,7 +219,7 @@ def run_c05(tier):
     res.assumptions += [
         "exploration: termination and absence of panics are observed on the enumerated corners, not derived - except for the mania pattern generators, whose assertion / column-range freedom is model-checked over every reachable (previous pattern, stair) state per key count; maps failing check_suspicion() are skipped (precondition)",
         "adversarial domain in release only; realistic domain in release and with overflow checks (dev profile)",
-        "watchdog: a map that makes no progress for %d s or kills the process counts as a hang; RLIMIT_AS %d GiB" % (STALL_S, MEM_BYTES // 1024 ** 3),
+        "watchdog: a call that uses more than %d CPU seconds (or blocks for %d s), or kills the process, counts as a hang; RLIMIT_AS %d GiB" % (STALL_S, WALL_BACKSTOP_S, MEM_BYTES // 1024 ** 3),
     ]
     return res.finish()
 
